@@ -103,3 +103,65 @@ Qed.
 Lemma witnesses_rejected :
   open w_self_ref = Err 2 /\ open w_zero_syl = Err 2 /\ open w_cyclic_bytes = Err 2.
 Proof. split; [|split]; vm_compute; reflexivity. Qed.
+
+(* ------------------------------------------------------------------ *)
+(* C11: witnesses just outside the capacity guards of the round trip     *)
+
+(* (1) a leaf of 65536 bytes: `data_len as u16` is 0, the reader then treats the
+   leaf as corrupt and the lookup returns nothing although the phrase is in
+   the builder *)
+Definition w_big_phrase : phrase := mkPhrase (N.iter 65525 (cons 97) []) 5 None.
+Definition w_big_tree : tnode := tinsert [11859] w_big_phrase tempty.
+Definition MAXFIRST : N := 18446744073709551615.
+
+Definition big_check : bool :=
+  match write (mkInfo [] [] [] [] []) w_big_tree with
+  | Ok bytes =>
+    match open bytes with
+    | Ok tr => match lookup tr [11859] MAXFIRST STANDARD with Ok [] => true | _ => false end
+    | _ => false
+    end
+  | _ => false
+  end.
+
+Lemma big_check_true : big_check = true.
+Proof. vm_compute. reflexivity. Qed.
+
+Lemma big_leaf_size : option_map len_N (enc_phrases (sort_leaf [w_big_phrase])) = Some 65536.
+Proof. vm_compute. reflexivity. Qed.
+
+Lemma leaf_over_capacity_truncates :
+  exists bytes tr,
+    write (mkInfo [] [] [] [] []) w_big_tree = Ok bytes /\ open bytes = Ok tr /\
+    lookup tr [11859] MAXFIRST STANDARD = Ok [] /\
+    option_map len_N (enc_phrases (sort_leaf [w_big_phrase])) = Some 65536.
+Proof.
+  pose proof big_check_true as H. unfold big_check in H.
+  destruct (write (mkInfo [] [] [] [] []) w_big_tree) as [bytes| | |] eqn:Hw; try discriminate H.
+  destruct (open bytes) as [tr| | |] eqn:Ho; try discriminate H.
+  destruct (lookup tr [11859] MAXFIRST STANDARD) as [[|? ?]| | |] eqn:Hl; try discriminate H.
+  exists bytes, tr. split; [reflexivity|]. split; [exact Ho|]. split; [exact Hl|exact big_leaf_size].
+Qed.
+
+(* (2) a leaf that mixes one-character and multi-character phrases of unusual byte
+   lengths: the comparator of phrases.sort_by is not transitive there, so "the
+   sorted leaf" is not defined by the comparator (Vec::sort_by may then return
+   any order, or panic since Rust 1.81).  "a" (1 byte), U+20000 (4 bytes), "bc". *)
+Definition w_p1 : phrase := mkPhrase [97] 0 None.
+Definition w_p2 : phrase := mkPhrase [240; 160; 128; 128] 0 None.
+Definition w_pm : phrase := mkPhrase [98; 99] 0 None.
+Definition ple (a b : phrase) : bool := cmp_le (phrase_cmp a b).
+
+Lemma mixed_leaf_comparator_not_transitive :
+  ple w_p2 w_p1 = true /\ ple w_p1 w_pm = true /\ ple w_p2 w_pm = false.
+Proof. repeat split; vm_compute; reflexivity. Qed.
+
+(* the order of the written leaf then depends on the insertion order of the same set *)
+Lemma mixed_leaf_order_depends_on_insertion :
+  sort_leaf [w_p2; w_pm; w_p1] <> sort_leaf [w_p1; w_p2; w_pm] /\
+  Permutation.Permutation [w_p2; w_pm; w_p1] [w_p1; w_p2; w_pm].
+Proof.
+  split; [vm_compute; discriminate|].
+  apply Permutation.Permutation_sym.
+  exact (Permutation.Permutation_cons_append [w_p2; w_pm] w_p1).
+Qed.
